@@ -117,8 +117,11 @@ impl<'a> CertificateFetcher<'a> {
                 ProtocolError::Parse("Certificate BEGIN marker not found".to_string())
             })?;
 
-        let cert_end = response
+        // Search for the END marker after the BEGIN marker: an END marker that
+        // appears earlier in the text would make the slice below start past its end.
+        let cert_end = response[cert_start..]
             .find("-----END CERTIFICATE-----")
+            .map(|pos| cert_start + pos)
             .ok_or_else(|| ProtocolError::Parse("Certificate END marker not found".to_string()))?;
 
         // Include the END marker in the extraction
